@@ -90,6 +90,7 @@ def _offending(rng, pop):
                'end', None, 'unknown'),
               ('repeat in group "NoGroup" as zz with zv from 1 to 5 begin '
                'set zz end', None, 'unknown')]
+    forms += forms[-4:] * 2      # iterations are rarer in scripts: weigh up
     forms += [('set group "NoGroup"', None, 'unknown'),
               ('on group "NoGroup"', None, 'unknown'),
               ('off location "Nowhere"', None, 'unknown'),
